@@ -560,6 +560,10 @@ class Circuit(Unitary, StateVectorMap, Collection[Operation]):
 
         perm = [int(q) for q in qudit_permutation]
 
+        self._radixes = tuple(
+            self.radixes[perm.index(q)] for q in range(self.num_qudits)
+        )
+
         perm_point = lambda p: CircuitPoint(p.cycle, perm[p.qudit])
         perm_point_or_none = lambda p: perm_point(p) if p is not None else p
 
